@@ -114,10 +114,12 @@ Definition nl : bstring := [10].
 Fixpoint spaces (n : nat) : bstring := match n with O => [] | S k => 32 :: spaces k end.
 
 (* _GD_StripCode without affixes, for an input/scalar code (GD_CO_REPR):
-   a one-character code r, i, a or m gets a disambiguating ".z" *)
+   a one-character (sub)field name r, i, a or m gets a disambiguating .z *)
 Definition is_repr_char (c : byte) : bool := (c =? 114) || (c =? 105) || (c =? 97) || (c =? 109).
+Definition last_seg (s : bstring) : bstring :=       (* the part after the last slash *)
+  fold_left (fun acc ch => if ch =? 47 then [] else acc ++ [ch]) s [].
 Definition strip_code (c : wctx) (code : bstring) : bstring :=
-  match code with
+  match last_seg code with
   | [x] => if w_reprz c && is_repr_char x then code ++ [46; 122] else code
   | _ => code
   end.
